@@ -949,4 +949,46 @@ Definition action_respell_free (a : action V) : bool :=
   | _ => true
   end.
 
+(* ---- the guard of update_thetas_realises (changed + removed + added thetas in one step) ---------
+   g_action: every planned surgery is inside the guard of the record-level theorems (evaluated on the tree
+   AFTER the removal); g_order: the values the plan hands out, in the order the records are emitted
+   (an unchanged one-theta record is appended as it is, a created record carries its parameter, an
+   updated record its cur_to_change), are the new parameter list - this is where the order in which
+   lcs.diff / reorder_diff emit the script and the loop consumes it enters. *)
+Definition action_values (a : action V) : res (list (param V)) :=
+  match a with
+  | AKeep r => sem V F (relex r)
+  | ACreate _ p => Ok [p]
+  | AUpdate _ _ chg => Ok chg
+  end.
+Definition g_action (a : action V) : bool :=
+  match a with
+  | AKeep _ => true
+  | ACreate _ p => g_repr p
+  | AUpdate r rem chg => guard_record (theta_remove r rem) chg
+  end.
+Fixpoint params_eqb (a b : list (param V)) : bool :=
+  match a, b with
+  | [], [] => true
+  | x :: a', y :: b' => param_eqb V F x y && params_eqb a' b'
+  | _, _ => false
+  end.
+Definition g_order (acts : list (action V)) (new : list (text * param V)) : bool :=
+  match mapM action_values acts with
+  | Ok l => params_eqb (concat l) (map snd new)
+  | Err _ => false
+  end.
+Definition guard_plan (recs : list node) (old new : list (text * param V)) : bool :=
+  match ut_plan V F recs old new with
+  | Ok acts => forallb g_action acts && g_order acts new
+  | Err _ => false
+  end.
+(* what one regenerated record means: a created record is read as built (create_theta_readback), the
+   others after the lexer's reclassification of infinite bounds *)
+Definition out_sem (a : action V) (root : node) : res (list (param V)) :=
+  match a with
+  | ACreate _ _ => sem V F root
+  | _ => sem V F (relex root)
+  end.
+
 End Guards.
